@@ -40,6 +40,8 @@ def walfault_oracle(script, impl):
         if out.startswith('panic'):
             probs.append('%s: implementation panicked: %s' % (op, out[:120]))
             continue
+        if out == 'noseal':
+            continue
         if op == 'new':
             files, nxt = [[]], 1
         elif op == 'append' and out.startswith('ok'):
